@@ -6,6 +6,7 @@
 
 use rosu_pp::{
     any::{DifficultyAttributes, ScoreState},
+    Beatmap, Difficulty, Performance,
     catch::{CatchDifficultyAttributes, CatchScoreState},
     mania::{ManiaDifficultyAttributes, ManiaScoreState},
     model::mode::GameMode,
@@ -14,7 +15,8 @@ use rosu_pp::{
 };
 
 use crate::{
-    maps::{dump, mode_name},
+    gen::{self, Mix},
+    maps::{dump, mode_name, Domain},
     props::c12::{self, In},
     rng::{hash_str, Rng},
     runner::{api as bracket, guard, Ctx, Tier},
@@ -267,11 +269,28 @@ fn out_accuracy(attrs: &DifficultyAttributes, i: &In, out: &ScoreState) -> f64 {
 }
 
 fn check_one(ctx: &mut Ctx, mode: GameMode, attrs: &DifficultyAttributes, i: &In, grid_kind: &str) -> bool {
+    check_one_with(ctx, mode, attrs, i, grid_kind, &|i| Some(c12::build(attrs, mode, i)))
+}
+
+/// `mk` creates the configured builder (None: this entry path is not available, e.g. a conversion error).
+fn check_one_with<'m>(
+    ctx: &mut Ctx,
+    mode: GameMode,
+    attrs: &DifficultyAttributes,
+    i: &In,
+    grid_kind: &str,
+    mk: &dyn Fn(&In) -> Option<Performance<'m>>,
+) -> bool {
     let mname = mode_name(mode);
     let r = guard(|| {
-        let mut b = c12::build(attrs, mode, i);
-        bracket("generate_state", || b.generate_state())
+        let mut b = mk(i)?;
+        Some(bracket("generate_state", || b.generate_state()))
     });
+    let r = match r {
+        Ok(None) => return true,
+        Ok(Some(o)) => Ok(o),
+        Err(p) => Err(p),
+    };
     ctx.eval();
     let out = match r {
         Ok(o) => o,
@@ -419,4 +438,85 @@ pub fn case(ctx: &mut Ctx, idx: u64) {
     }
     ctx.count_n("configurations", n_cfg);
     ctx.sample(|| format!("mode={mname} exhaustive={exhaustive} attrs={} configurations={n_cfg}", dump(&attrs)));
+    if !exhaustive {
+        via_map(ctx, &mut rng);
+    }
+}
+
+/// The same oracle for a play that is specified on a builder created from an osu!standard *map* and only afterwards
+/// switched to the target mode (`try_mode` / `mode_or_ignore`): accuracy and misses are set before the conversion.
+fn via_map(ctx: &mut Ctx, rng: &mut Rng) {
+    let mx = Mix {
+        realistic: true,
+        max_objects: 24,
+        fixtures: true,
+        mode: Some(0),
+        ..Mix::default()
+    };
+    let Some((mc, map)) = gen::gen_domain_map(rng, &mx, Domain::Realistic) else { return };
+    if map.mode != GameMode::Osu || map.hit_objects.is_empty() {
+        return;
+    }
+    let mode = *rng.pick(&[GameMode::Osu, GameMode::Taiko, GameMode::Catch, GameMode::Mania]);
+    let mname = mode_name(mode);
+    let Ok(Ok(conv)) = guard(|| map.convert_ref(mode, &0u32.into()).map(std::borrow::Cow::into_owned)) else { return };
+    let (lazer, cl) = match mode {
+        GameMode::Osu | GameMode::Mania => *rng.pick(&[(Some(false), false), (Some(true), false), (Some(true), true), (None, false)]),
+        _ => (None, false),
+    };
+    // attributes of the converted map for the brute-force oracle (CL / lazer do not influence the counts)
+    let Ok(attrs) = guard(|| Difficulty::new().calculate(&conv)) else { return };
+    let budget = c12::budget(&attrs);
+    if budget == 0 || budget > 60 {
+        return;
+    }
+    let use_ignore = rng.chance(0.5);
+    let entry = if use_ignore { "via-mode_or_ignore" } else { "via-try_mode" };
+    ctx.count(&format!("entry:{entry}:{mname}"));
+    let map_ref: &Beatmap = &map;
+    let mk = move |i: &In| -> Option<Performance<'_>> {
+        let p = c12::build_on(Performance::new(map_ref), mode, i);
+        if use_ignore {
+            Some(p.mode_or_ignore(mode))
+        } else {
+            p.try_mode(mode).ok()
+        }
+    };
+    for _ in 0..3 {
+        let some_m = rng.below(u64::from(budget) + 2) as u32;
+        let misses = *rng.pick(&[None, Some(0), Some(some_m), Some(1)]);
+        let base = In {
+            acc: Some(0.0),
+            combo: None,
+            misses,
+            r: vec![None; c12::n_results(mode)],
+            worst: mode != GameMode::Catch && rng.chance(0.5),
+            lazer,
+            cl,
+            passed: None,
+        };
+        let mut targets: Vec<f64> = (0..6).map(|_| rng.frange(0.0, 100.0)).collect();
+        targets.push(100.0);
+        targets.push(rng.range(80, 99) as f64);
+        if let Ok(Some(probe)) = guard(|| mk(&base).map(|mut b| b.generate_state())) {
+            let want_m = misses.unwrap_or(0).min(budget);
+            let mut ach = achievable(&attrs, &base, want_m, &probe);
+            ach.sort_by(f64::total_cmp);
+            ach.dedup();
+            for _ in 0..6.min(ach.len()) {
+                let a = *rng.pick(&ach);
+                targets.push(a * 100.0);
+                targets.push(a * 100.0 + 1e-7);
+            }
+        }
+        for t in targets {
+            let mut i = base.clone();
+            i.acc = Some(t);
+            ctx.count("configurations_via_map");
+            if !check_one_with(ctx, mode, &attrs, &i, entry, &mk) {
+                ctx.sample(|| format!("via-map witness src={} mode={mname}", mc.tag));
+                return;
+            }
+        }
+    }
 }
